@@ -131,7 +131,7 @@ R_pongD_pong_closeD == <<"pong@", "pong", "close@">>
 
 Plan == [i \in 1..Len(Shapes) |-> Shape(Role, Shapes[i])]
 GenProgram == [msgs |-> [i \in 1..Len(Shapes) |-> Plan[i].frames], hold |-> [i \in 1..Len(Shapes) |-> Plan[i].hold],
-               ctl |-> Ctl, rd |-> Rd, closer |-> Closer]
+               ctl |-> Ctl, rd |-> Rd, cx |-> <<>>, closer |-> Closer]
 
 GenInit == Init /\ hist = <<>> /\ q = <<>>
 
